@@ -135,6 +135,13 @@ CLAIMS = {
     "C28": C("get_equivalent rebinds net to a deep copy before the first write and no reachable function writes "
              "to an object aliasing the caller's net.",
              "effect analysis with parameter aliasing over the call graph"),
+    "C29": C("Only the structure of the trip decision of Fuse and OCRelay is claimed: the current is read from "
+             "res_switch_sc.ikss_ka / res_switch.i_ka at the device's own switch and reported unchanged; threshold chains test "
+             "the stages from the most to the least severe with strict comparisons, set tripped and the time of the same "
+             "stage, and end in not-tripped / infinite time; the inverse-time expression agrees between IDMT and IDTOC and is "
+             "guarded by i > I_s; the fuse works in ampere throughout; __str__/__repr__ of protection devices store nothing. "
+             "Monotonicity of run-time characteristic data is not decided.",
+             "ast branch-chain / sibling-agreement / effect analysis"),
     "C30": C("No module-level mutable escapes by reference into instance state that is mutated in place; each "
              "diagnostic function that writes its parameter's tables (directly or through a callee) restores them on every "
              "normally returning path; results are returned in fresh containers.",
@@ -160,6 +167,5 @@ NOT_APPLICABLE = {
     "C06": "agreement of five iterative solvers and two back-ends is equality of numerical fixed points; no shape-of-code clause is a necessary condition of it (DESIGN.md section 5)",
     "C11": "equality of sequence-frame and single-phase solutions and per-phase balance are numerical; no structural clause beyond those checked for C01/C02 (DESIGN.md section 5)",
     "C21": "round-trip equality of power-flow results through ppc/mpc is numerical; a column-coverage proxy would fire on legitimate converter scope changes (DESIGN.md section 5)",
-    "C29": "monotonicity of trip time in current depends on run-time characteristic data and interpolation (DESIGN.md section 5)",
     "C32": "interpolation through support points is a property of scipy interpolators on run-time data (DESIGN.md section 5)",
 }
